@@ -301,6 +301,81 @@ def rule_pubtriple(repo, rule):
             rule.violation(fi.loc(), fi.fq, norm(fi.node.body)[:100], "%s does not write+flush %s" % (fn, fvar), "flushw/%s" % fn)
 
 
+def trav_sig(fnode, bind=None):
+    """Signature of a recursive structure traversal `def t(.., struct)`: (container classes it descends into, leaf class),
+    or None.  Containers are iterated front to back, every element is visited (no filter, no slice), the recursion is on the
+    element; the leaf arm applies a function to / yields the leaf itself.  `bind` maps parameter names to argument texts."""
+    bind = bind or {}
+    params = [a.arg for a in fnode.args.args]
+    if not params:
+        return None
+    sp = params[-1]
+    conts, leaf = set(), None
+
+    def types_of(test):
+        if isinstance(test, ast.Call) and norm(test.func) == "isinstance" and len(test.args) == 2 and norm(test.args[0]) == sp:
+            ts = test.args[1].elts if isinstance(test.args[1], (ast.Tuple, ast.List)) else [test.args[1]]
+            return [bind.get(norm(t), norm(t)) for t in ts]
+        if isinstance(test, ast.BoolOp) and isinstance(test.op, ast.Or):
+            out = []
+            for v in test.values:
+                t = types_of(v)
+                if t is None:
+                    return None
+                out += t
+            return out
+        return None
+
+    def recursive_over_struct(stmts):
+        """the arm visits every element of `sp` in order through a recursive call"""
+        for n in ast.walk(ast.Module(body=stmts, type_ignores=[])):
+            it, var, body = None, None, None
+            if isinstance(n, (ast.ListComp, ast.GeneratorExp)) and len(n.generators) == 1 and not n.generators[0].ifs:
+                it, var, body = n.generators[0].iter, n.generators[0].target, n.elt
+            elif isinstance(n, ast.For) and not n.orelse:
+                it, var, body = n.iter, n.target, ast.Module(body=n.body, type_ignores=[])
+            elif isinstance(n, ast.Call) and norm(n.func) == "map" and len(n.args) == 2 and isinstance(n.args[0], ast.Lambda) \
+                    and len(n.args[0].args.args) == 1:
+                it, var, body = n.args[1], ast.Name(id=n.args[0].args.args[0].arg, ctx=ast.Store()), n.args[0].body
+            if it is None or norm(it) != sp or not isinstance(var, ast.Name):
+                continue
+            for c in ast.walk(body):
+                if isinstance(c, ast.Call) and norm(c.func) == fnode.name and c.args and norm(c.args[-1]) == var.id:
+                    return True
+        return False
+
+    def walk(stmts):
+        nonlocal leaf
+        for s in stmts:
+            if isinstance(s, ast.If):
+                ts = types_of(s.test)
+                if ts is None:
+                    return False
+                if recursive_over_struct(s.body):
+                    conts.update(t.split(".")[-1] for t in ts)
+                else:
+                    uses_leaf = any((isinstance(x, ast.Call) and any(norm(a) == sp for a in x.args)) or
+                                    (isinstance(x, (ast.Yield, ast.Return)) and x.value is not None and norm(x.value) == sp)
+                                    for b in s.body for x in ast.walk(b))
+                    if not uses_leaf or len(ts) != 1 or leaf is not None:
+                        return False
+                    leaf = ts[0]
+                if s.orelse and not walk(s.orelse):
+                    return False
+            elif isinstance(s, (ast.Return, ast.Expr)):
+                v = s.value
+                if v is None or norm(v) == sp or isinstance(v, ast.Constant):
+                    continue        # other leaves are handed back unchanged / ignored
+                return False
+            else:
+                return False
+        return True
+    body = [s for s in fnode.body if not (isinstance(s, ast.Expr) and isinstance(s.value, ast.Constant))]
+    if not walk(body) or not conts or leaf is None:
+        return None
+    return (tuple(sorted(conts)), leaf.split(".")[-1])
+
+
 def rule_glue(repo, rule):
     m = repo.module(QB)
     sub = m.functions.get("subqap.subqap_.subqap__")
@@ -378,6 +453,67 @@ def rule_glue(repo, rule):
     for n in ast.walk(sub.node):
         if isinstance(n, ast.Call) and norm(n.func) == "for_each_in" and len(n.args) == 3 and norm(n.args[1]) in info:
             uses[norm(n.args[1])] = (n, norm(n.args[2]))
+    if not info:
+        # second way of writing it: the copies are made by a pure copy function, and the pairs are formed afterwards by
+        # walking the original and the copied structure side by side:  zip(T(x), T(for_each_in(C, copy, x)))
+        from ..flatten import resolve_locals as _rl12
+        gcalls = [c for c in ast.walk(sub.node) if isinstance(c, ast.Call) and norm(c.func) == "vc_glue" and len(c.args) == 3 and _owner(c) is sub.node]
+        fe = m.functions.get("for_each_in")
+        if gcalls and fe is not None:
+            lst_txt = norm(gcalls[0].args[2])
+            e = _rl12(sub.node, gcalls[0].args[2], max_depth=6)
+            parts = []
+
+            def split(x):
+                if isinstance(x, ast.BinOp) and isinstance(x.op, ast.Add):
+                    split(x.left)
+                    split(x.right)
+                else:
+                    parts.append(x)
+            split(e)
+            for k_, part in enumerate(parts):
+                z = part
+                if isinstance(z, ast.Call) and norm(z.func) in ("list", "tuple") and len(z.args) == 1:
+                    z = z.args[0]
+                if not (isinstance(z, ast.Call) and norm(z.func) == "zip" and len(z.args) == 2 and all(
+                        isinstance(a_, ast.Call) and len(a_.args) == 1 and isinstance(a_.func, ast.Name) for a_ in z.args)
+                        and norm(z.args[0].func) == norm(z.args[1].func)):
+                    continue
+                tfi = m.functions.get(norm(z.args[0].func))
+                xa, xb = z.args[0].args[0], z.args[1].args[0]
+                fcall, orig, order = None, None, None
+                for a_, b_, od in ((xa, xb, ("copy", "orig")), (xb, xa, ("orig", "copy"))):
+                    if isinstance(a_, ast.Call) and norm(a_.func) == "for_each_in" and len(a_.args) == 3 and norm(a_.args[2]) == norm(b_):
+                        fcall, orig, order = a_, b_, od
+                if tfi is None or fcall is None:
+                    continue
+                cf = closures.get(norm(fcall.args[1]))
+                sig_t = trav_sig(tfi.node)
+                sig_f = trav_sig(fe.node, {fe.params[0]: norm(fcall.args[0])})
+                key = "zip#%d" % k_
+                if sig_t is None or sig_f is None or sig_t != sig_f:
+                    rule.violation(sub.loc(gcalls[0]), sub.fq, "%s walks %s, for_each_in walks %s" % (tfi.name, sig_t, sig_f),
+                                   "the pairs are formed by walking the original and the copied structure side by side, but the two "
+                                   "traversals do not visit the same elements in the same order", "glue/traversal/%s" % tfi.name)
+                    continue
+                if cf is None:
+                    continue
+                rets_ = [r_ for r_ in ast.walk(cf.node) if isinstance(r_, ast.Return) and r_.value is not None]
+                p_ = cf.params[0] if cf.params else None
+                same_val = len(rets_) == 1 and isinstance(rets_[0].value, ast.Call) and norm(rets_[0].value.func).endswith("PrivVal") \
+                    and rets_[0].value.args and norm(rets_[0].value.args[0]) == "%s.value" % p_
+                info[key] = (cf, "orig", "copy", order, same_val, lst_txt)
+                if same_val:
+                    rule.ok(cf.loc(), cf.fq, norm(rets_[0].value), "copy is hinted with the original's value")
+                else:
+                    rule.violation(cf.loc(), cf.fq, norm(cf.node.body[-1])[:80], "the copy in the other context does not carry the original's value",
+                                   "glue/value/%s" % cf.name)
+                # the for_each_in call as it stands in the function (the resolved copy is a clone)
+                site = [n for n in ast.walk(sub.node) if isinstance(n, ast.Call) and norm(n) == norm(_rl12(sub.node, n, max_depth=0))
+                        and norm(n.func) == "for_each_in" and len(n.args) == 3 and norm(_rl12(sub.node, n, max_depth=6)) == norm(fcall)]
+                if site:
+                    uses[key] = (site[0], "args" if norm(_rl12(sub.node, site[0].args[2], max_depth=6)) == "args" else "<ret>")
+                rule.ok(sub.loc(gcalls[0]), sub.fq, "%s and for_each_in both walk %s in order" % (tfi.name, sig_t), "pairs are formed element by element")
     fncall = [n for n in ast.walk(sub.node) if isinstance(n, ast.Call) and norm(n.func) == "fn" and _owner(n) is sub.node]
     cfg = CFG(sub.node)
     dom = cfg.dominators()
@@ -397,7 +533,7 @@ def rule_glue(repo, rule):
     for n in ast.walk(sub.node):
         if isinstance(n, ast.Assign) and fncall and n.value is fncall[0]:
             ret_var = norm(n.targets[0])
-    ret_use = [(k, v) for k, v in uses.items() if v[1] == ret_var]
+    ret_use = [(k, v) for k, v in uses.items() if v[1] == ret_var or v[1] == "<ret>"]
     where = sub.loc()
     if not (arg_use and ret_use and fncall and all(k in named for k in ("enterfn", "continuefn", "vc_glue"))):
         rule.undecided(where, sub.fq, "uses=%s named=%s" % (sorted(uses), sorted(named)), "sub-circuit wrapper not in the expected shape")
@@ -445,7 +581,14 @@ def rule_glue(repo, rule):
     c1, c2, vals = vg.params[:3]
     if len(decl) == 2 and len(decl[0].args) == 3 and len(decl[1].args) == 3:
         same_rnd = norm(decl[0].args[2]) == norm(decl[1].args[2])
-        sides = (norm(decl[0].args[1]).replace(" ", ""), norm(decl[1].args[1]).replace(" ", ""))
+        def _canon_comp(e):
+            """text of a one-generator comprehension with its own variable called x"""
+            if isinstance(e, (ast.ListComp, ast.GeneratorExp)) and len(e.generators) == 1 and isinstance(e.generators[0].target, ast.Name):
+                from ..flatten import _Rename
+                from ..loader import clone as _clone
+                e = _Rename({e.generators[0].target.id: "x"}).visit(_clone(e))
+            return norm(e).replace(" ", "")
+        sides = (_canon_comp(decl[0].args[1]), _canon_comp(decl[1].args[1]))
         want = ("[x[0]forxin%s]" % vals, "[x[1]forxin%s]" % vals)
         if same_rnd:
             rule.ok(vg.loc(decl[0]), vg.fq, "both blocks declared with randomness `%s`" % norm(decl[0].args[2]))
@@ -623,13 +766,76 @@ def rule_unit(repo, rule):
             if es is None:
                 b = m.bindings.get(n.elt.func.id)
                 es = b[1] if b and b[0] == "def" else None
+    from ..flatten import resolve_locals as _rl
+
+    def fn_of(name):
+        f_ = vdb.children.get(name)
+        if f_ is None:
+            b_ = m.bindings.get(name)
+            f_ = b_[1] if b_ and b_[0] == "def" else None
+        return f_
+
+    def pure_value(call):
+        """the expression a call of a straight-line helper `def h(p): a = ..; return E` stands for (locals resolved,
+        argument substituted), or None"""
+        if not (isinstance(call, ast.Call) and isinstance(call.func, ast.Name) and len(call.args) == 1 and not call.keywords):
+            return None
+        f_ = fn_of(call.func.id)
+        if f_ is None or len(f_.params) != 1:
+            return None
+        body = [s for s in f_.node.body if not (isinstance(s, ast.Expr) and isinstance(s.value, ast.Constant))]
+        if not body or not isinstance(body[-1], ast.Return) or body[-1].value is None or not all(
+                isinstance(s, ast.Assign) and len(s.targets) == 1 and isinstance(s.targets[0], ast.Name) for s in body[:-1]):
+            return None
+        from ..flatten import _Subst
+        return _Subst({f_.params[0]: call.args[0]}).visit(_rl(f_.node, body[-1].value))
     if es is None:
         es = vdb.children.get("ensure_single")
     if es is None:
+        # written in place:  [x if UNIT(x) else FRESH(x) for x in members]
+        for n in ast.walk(vdb.node):
+            if isinstance(n, ast.ListComp) and len(n.generators) == 1 and norm(n.generators[0].iter) == members \
+                    and not n.generators[0].ifs and isinstance(n.elt, ast.IfExp) and isinstance(n.generators[0].target, ast.Name):
+                x = n.generators[0].target.id
+                keep, other, t = n.elt.body, n.elt.orelse, n.elt.test
+                if norm(other) == x and norm(keep) != x:
+                    keep, other, t = other, keep, ast.UnaryOp(op=ast.Not(), operand=t)
+                if norm(keep) != x:
+                    continue
+                tv = t
+                if isinstance(t, ast.Call):
+                    tv = pure_value(t) or t
+                conj = tv.values if isinstance(tv, ast.BoolOp) and isinstance(tv.op, ast.And) else [tv]
+                txts = [norm(c).replace(" ", "") for c in conj]
+                has_len = any(c in ("len(%s.lc.sig)==1" % x, "1==len(%s.lc.sig)" % x) for c in txts)
+                has_coef = any(c in ("%s.lc.sig[0][0]==1" % x, "1==%s.lc.sig[0][0]" % x, "%s.lc.sig[0][0]%%vc_p==1" % x) for c in txts)
+                term = "bypass when `%s`" % norm(tv)
+                if has_len and has_coef:
+                    rule.ok(vdb.loc(n), vdb.fq, term, "only exact unit wires bypass re-allocation")
+                else:
+                    rule.violation(vdb.loc(n), vdb.fq, term,
+                                   "a member whose linear combination is c*wire (c != 1) or a constant bypasses re-allocation: the block "
+                                   "lists the wire (value w) while the member's value is c*w, so paired blocks do not carry equal values",
+                                   "unit/bypass")
+                fr_ = fn_of(other.func.id) if isinstance(other, ast.Call) and isinstance(other.func, ast.Name) and len(other.args) == 1 \
+                    and norm(other.args[0]) == x else None
+                if fr_ is not None and len(fr_.params) == 1:
+                    p_ = fr_.params[0]
+                    txt = norm(fr_.node.body)
+                    rets_ = [r_ for r_ in ast.walk(fr_.node) if isinstance(r_, ast.Return) and r_.value is not None]
+                    alloc_ = [a_ for a_ in ast.walk(fr_.node) if isinstance(a_, ast.Assign) and norm(a_.value).endswith("PrivVal(%s.value)" % p_)]
+                    tied_ = alloc_ and "%s.assert_eq(%s)" % (norm(alloc_[0].targets[0]), p_) in txt and len(rets_) == 1 \
+                        and norm(rets_[0].value) == norm(alloc_[0].targets[0])
+                    if tied_:
+                        rule.ok(fr_.loc(), fr_.fq, "otherwise: fresh wire with the member's value, constrained equal")
+                    else:
+                        rule.violation(fr_.loc(), fr_.fq, txt[:100], "re-allocated member is not constrained equal to the original", "unit/realloc")
+                else:
+                    rule.undecided(vdb.loc(n), vdb.fq, norm(other)[:60], "re-allocation arm not interpretable")
+                return
         rule.undecided(vdb.loc(), vdb.fq, "ensure_single", "helper not found")
         return
     x = es.params[0]
-    from ..flatten import resolve_locals as _rl
     # the record lists  x.lc.sig[0][1]  (the *name* of the single term): which expression is written?
     uses_name_only = any("sig[0][1]" in norm(c) for c in writes_in(vdb.node, "qape"))
     bypass = [n for n in es.node.body if isinstance(n, ast.If) and any(isinstance(b, ast.Return) and norm(b.value) == x for b in n.body)]
